@@ -11,6 +11,7 @@ LEVEL_NOTE = ("Not decided: nothing of substance is declined (the property is st
               "(unknown consumers of may-cancel results are rejected), `?` propagates errors unchanged except for From conversions "
               "(From<CancellationError> wraps into ExecutionError::Cancelled, From<ExecutionError> for itself is the identity).")
 LEVEL_TEXT += (' A closure that may return Cancelled is run only by consumers that keep its errors (map + collect::<Result>, try_for_each, audited local functions), never by flat_map / filter_map / last / for_each; Result::map and and_then in a chain are accepted because they act on the Ok value only.')
+LEVEL_TEXT += (' Every InContext built by with_context sits on an edge that has already excluded Cancelled (no wrapping arm can shadow the Cancelled arm).')
 
 RULES = {
     "E2.p": "a call of CancellationFlag::check is on every path to each unit of work the property names (statement, attribute, scan "
